@@ -19,7 +19,8 @@ Cats == {"sources", "outputs", "attachments", "metadata", "id", "details"}
 \* positive / negative command line flags; an 'Ignore' mapping in one config section; the same mapping with key
 \* lists for the metadata keys that differ; the mapping split over two sections and two config directories;
 \* the ignorable booleans in a config file
-Channels == {"positive", "negative", "ignoremap", "keylist", "splitmap", "configbools"}
+\* leafmap: an 'Ignore' mapping that names the scalar leaves themselves (".../execution_count": true, ".../id": true)
+Channels == {"positive", "negative", "ignoremap", "keylist", "splitmap", "configbools", "leafmap"}
 
 \* positive flags name the categories to show: cannot express "ignore everything", and no flag = show all
 Expressible == channel = "positive" => (ignored # Cats /\ ignored # {})
